@@ -2,6 +2,7 @@ INIT Init
 NEXT MCNext
 CONSTANTS
   Stacks <- Stacks2
+  Indeps <- Both
   Targets <- AllTargets
   MaxHooks = 1
   InitRegs <- C3Regs
